@@ -9,7 +9,7 @@
    derivative.  Rows are finite rationals (type Q): real rows anywhere in the batch,
    padded rows with arbitrary finite content.  `strip vals m` = the real rows. *)
 From Coq Require Import ZArith QArith List Bool.
-From FV Require Import Common.Batch Common.NanQ Common.QVec Model.C06_Model Proofs.C06_Proofs.
+From FV Require Import Common.Batch Common.NanQ Common.QVec gen.Gen_tree_util Model.C06_Model Proofs.C06_Proofs.
 Import ListNotations.
 Local Open Scope Q_scope.
 
@@ -110,6 +110,21 @@ Theorem C06_translated_kernels :
   (forall nd r bs, t_domain_metrics nd r bs = (inj (fst (domain_metrics nd r bs)), inj (snd (domain_metrics nd r bs)))).
 Proof. exact translated_kernels. Qed.
 
+(* the sum over the clients' (grads_sum, num_sum) outputs that the Mime models use is the
+   TRANSLATED tree_util.tree_sum (gen/Gen_tree_util.v) applied to the clients' flat leaf lists *)
+Theorem C06_client_sum_is_tree_sum : forall dr cl, cl <> [] ->
+  tree_sum (map flat (map (t_mime_client dr) cl)) = Some (flat (tpair_sum (map (t_mime_client dr) cl))).
+Proof. exact mime_clients_tree_sum. Qed.
+
+(* the hypotheses of the theorems above are satisfiable by non-trivial instances: batches whose mask and
+   values have equal length (the only well-formedness the harness-generated cases are asserted to have) *)
+Example C06_hypotheses_example :
+  Forall wf_s [([2; 99], Some [true; false]); ([4; 6], None); ([1; 1], Some [false; false])] /\
+  Forall (Forall wf_m) [[([2; 99], [true; false]); ([0; 0], [false; false])]; [([4; 6; 0; 0], [true; true; false; false])]] /\
+  call [[([2; 99], [true; false]); ([0; 0], [false; false])]; [([4; 6; 0; 0], [true; true; false; false])]] = [2; 4; 6] /\
+  sall [([2; 99], Some [true; false]); ([4; 6], None); ([1; 1], Some [false; false])] = [2; 4; 6].
+Proof. repeat split; repeat constructor. Qed.
+
 (* non-vacuity: 3 real rows (2, 4, 6) in a padded batch of 5 with garbage padding, regulariser 1/2 *)
 Example C06_example :
   scalar_loss [2; 99; 4; 6; -7] (Some [true; false; true; true; false]) (Some (1 # 2)) = Some (12 / 3 + (1 # 2)) /\
@@ -132,3 +147,4 @@ Print Assumptions C06_fullbatch_grad_geometry_free.
 Print Assumptions C06_domain_sums_geometry_free.
 Print Assumptions C06_domain_sums_regularizer_refuted.
 Print Assumptions C06_translated_kernels.
+Print Assumptions C06_client_sum_is_tree_sum.
